@@ -295,6 +295,13 @@ class GVN:
             return self._getitem(t)
         if op == "call":
             return self._call(t)
+        if op in ("list", "tuple") and len(t.args) == 2 and getattr(self, "two_spin_walkers", False):
+            # [W[0], W[1]] of the two-component 'walkers' slot W is W
+            e_ = [substitute(x, self.hyp) if (self._sub and self.hyp) else x for x in t.args]
+            if all(x.op == "getitem" and x.args[1] is const(i_) for i_, x in enumerate(e_)) and e_[0].args[0] is e_[1].args[0] \
+                    and e_[0].args[0].op == "getitem" and e_[0].args[0].args[1].op == "const" and \
+                    e_[0].args[0].args[1].args[0] == "walkers":
+                return self._n(e_[0].args[0])
         if op in ("list", "tuple"):
             return self.single(self.atom("seq", tuple([f_key(self._n(x)) for x in t.args])))
         if op in ("vmap_elem", "scan_x"):
@@ -321,6 +328,16 @@ class GVN:
             return self.single(self.atom("iter", f_key(self._n(t.args[0]))))
         if op == "undef":
             return self.single(self.atom("undef", t.args[0]))
+        if op == "setitem" and getattr(self, "two_spin_walkers", False):
+            # [up, dn] container of unrestricted walkers: writing both components of the 'walkers' slot is the display
+            # of the two written values, whatever the container held before
+            keys_, b_ = [], t
+            while b_.op == "setitem" and b_.args[1].op == "const" and type(b_.args[1].args[0]) is int:
+                keys_.append(b_.args[1].args[0])
+                b_ = b_.args[0]
+            b2_ = substitute(b_, self.hyp) if (self._sub and self.hyp) else b_
+            if set(keys_) == {0, 1} and b2_.op == "getitem" and b2_.args[1].op == "const" and b2_.args[1].args[0] == "walkers":
+                return self._n(mk("list", getitem(t, const(0)), getitem(t, const(1))))
         if op == "setitem":
             return self.single(self.atom("setitem", f_key(self._n(t.args[0])), self.idx_key(t.args[1]),
                                          f_key(self._n(t.args[2]))))
